@@ -1,6 +1,6 @@
 (* Model of the size arithmetic of dtlcp/conn.go: maxPayloadSizeForWrite, the length of the
    record halfConn.encrypt produces, the splitting loop of writeRecordLocked (Write / WriteTo),
-   and flush (a buffered flight is written with one WriteTo).  Sizes are Z (Go int). *)
+   and flush / writeFlight (a buffered flight is packed into datagrams at record boundaries).  Sizes are Z (Go int). *)
 From Coq Require Export ZArith List Lia Bool.
 Export ListNotations.
 Open Scope Z_scope.
@@ -44,11 +44,26 @@ Fixpoint chunks (fuel : nat) (n maxp : Z) : list Z :=
   end.
 
 (* the datagrams one Write / WriteTo of n bytes hands to the network (not buffering) *)
+(* the loop body runs at least once for application data: an empty payload is one empty record *)
+Definition write_chunks (n maxp : Z) : list Z :=
+  if n <=? 0 then [0] else chunks (Z.to_nat n) n maxp.
 Definition write_datagrams (pmtu : Z) (m : mode) (n : Z) : list Z :=
-  map (record_len m) (chunks (Z.to_nat n) n (max_payload pmtu m)).
+  map (record_len m) (write_chunks n (max_payload pmtu m)).
 
 (* smallest path MTU for which one payload byte fits *)
 Definition min_pmtu (m : mode) : Z := record_len m 1.
 
-(* flush: the buffered records of a flight leave as ONE datagram *)
+(* flush / retransmission (Conn.writeFlight): the buffered records of a flight are packed, in order
+   and at record boundaries, into datagrams of at most the path MTU; `cur` is the size of the
+   datagram being filled (0: empty: the next record goes in whatever its size) *)
+Fixpoint pack (pmtu cur : Z) (recs : list Z) : list Z :=
+  match recs with
+  | [] => if 0 <? cur then [cur] else []
+  | r :: t =>
+      if (0 <? cur) && (pmtu <? cur + r) then cur :: pack pmtu r t
+      else pack pmtu (cur + r) t
+  end.
+Definition flight_datagrams (pmtu : Z) (recs : list Z) : list Z := pack (eff_pmtu pmtu) 0 recs.
+
+(* before the repair of K3 the whole flight left as ONE datagram *)
 Definition flush_datagram (recs : list Z) : Z := fold_right Z.add 0 recs.
